@@ -355,7 +355,7 @@ Section NewCounter.
     destruct (N.eqb_spec (len name) 0) as [X|_]; [lia|].
     destruct (N.ltb_spec 4096 (len name)) as [X|_]; [lia|].
     unfold lookup_sz, load32_sz.
-    destruct (N.leb_spec (len bs) (head_off hdr (hash name))) as [X|_]; [lia|].
+    destruct (N.ltb_spec (len bs) (head_off hdr (hash name) + 4)) as [X|_]; [lia|].
     assert (Hdiv : limit / 32 <= len bs / 32) by (apply N.div_le_mono; lia).
     rewrite (lookup_walk_chain bs hdr limit name _ _ _ _ 0 Hc H3).
     2:{ unfold chain_fuel in Hclen. change c_recordUnit with 32 in Hclen. lia. }
@@ -373,7 +373,7 @@ Section NewCounter.
         rewrite En in Hc'. rewrite Hc in Hc'. injection Hc' as <-.
         apply Ef. apply in_map_iff. exists r. split; assumption. }
       change c_limitOff with 0. rewrite N.add_0_r.
-      destruct (N.leb_spec (len bs) hdr) as [X|_]; [lia|]. rewrite <- El.
+      destruct (N.ltb_spec (len bs) (hdr + 4)) as [X|_]; [lia|]. rewrite <- El.
       assert (Hlim32 : limit < 4294967296) by lia.
       assert (Hnw : place_lim hdr limit + 32768 <= 4294967296).
       { unfold place_lim. destruct (limit =? 0); lia. }
